@@ -7,6 +7,19 @@ HERE = os.path.dirname(os.path.abspath(__file__))
 
 # property -> (technique, level text, level note, design ref)
 CLAIMED = {
+    'C12': ('lock typestate of the modification context manager (with / manual protocol) and of the manager itself over CFGs; '
+            'interprocedural validate-then-mutate analysis: tree-mutation summaries per parameter (fixpoint over the resolved '
+            'call graph), path-sensitive constant propagation with disjunctive states and constant-specialised callees, '
+            'temporary-normalisation acquire/release pairs with handler-restore recognition, request-dependence taint of '
+            'raise guards',
+            'Static: decides that the modification lock is released on every failure path, and that in ~250 tree-mutating '
+            'kernel functions nothing that can reject the caller\'s request (explicit request-dependent raise, call into '
+            'the request-validating family, call to a function whose own body can reject) is reachable after the first '
+            'mutation of the target or while a temporary normalisation is unrestored. Implicit exceptions from corrupted '
+            'intermediate states and raises guarded only by target state are not decided.',
+            'Trusts the naming conventions of the validator family and of the normalise/restore pairs (sa/rules/atomic.py), '
+            'the reviewed-instance table in sa/rules/c12.py (one reason each) and callee resolution by unique method names.',
+            'DESIGN.md §2 C12'),
     'C20': ('inventory of module-level mutable state with alias-aware writer analysis against a frozen allow-list; '
             'threading.local structure check; dominance / no-raise-after-update on the CFG of set_options(); try/finally '
             'restore shape of options(); validate-before-kernel dominance for every public **options method; mutation '
@@ -85,7 +98,7 @@ NOT_APPLICABLE = {
            'conservation is value-level. Its two structural clauses are checked as R5.1 and R7.3.',
 }
 
-PLANNED = ['C01', 'C02', 'C04', 'C05', 'C06', 'C07', 'C10', 'C11', 'C12', 'C15']
+PLANNED = ['C01', 'C02', 'C04', 'C05', 'C06', 'C07', 'C10', 'C11', 'C15']
 
 
 def main():
